@@ -86,6 +86,21 @@ def _cmeta(text, technique):
     return {"level_text": text, "level_note": COMP_NOTE, "technique": technique, "family": "comp"}
 
 
+SCHED_NOTE = ("Trusted base: sched/vsched.cpp (interposed pthread_mutex_lock/trylock/unlock, pthread_cond_wait/signal/broadcast, "
+              "pthread_create/join; one runnable thread at a time; mutexes and condition variables modelled; no spurious wake-ups "
+              "injected), glibc symbol interposition, rapidcheck. Scheduling points are synchronisation calls only: interleavings "
+              "inside unsynchronised regions are the data-race check's business (C11). Timed waits would be modelled as plain waits "
+              "(the code under test uses none; the harness fails its self-test if one appears). Exploration, not exhaustive.")
+
+
+def sched_stages(prop, quick_cases, size, floors=None, nontrivial_floor=200, thorough_mult=25):
+    def f(tier):
+        mult = thorough_mult if tier == "thorough" else 1
+        return [{"name": "sched", "binary": "sched_rc", "plan": [(0, quick_cases * mult, size)] * 16,
+                 "label_floors": floors or {}, "nontrivial_floor": nontrivial_floor}]
+    return f
+
+
 SPECS = {
     "C01": {
         **_meta('Generated-input search: thousands of (kind, parameter, string-set) cases per run, every member and ID of each case checked in both directions against the reference set on the built and both loaded objects; failures shrink to a replay file. Exploration is the right level: the property is universally quantified over inputs and 13 implementations, no finite model exists.', 'property-based testing (rapidcheck), reference-model round trip + bijection, ASan'),
@@ -213,6 +228,36 @@ SPECS = {
         "rule": "case = integer sequence of 1..400 strings with terminators + maxchar; non-trivial = >=1 rule whose expansion contains "
                 "another rule, or zero rules on >=2 strings; distinct = hash of the case bytes",
         "assumptions": ["the grammar is read through -fno-access-control in the harness translation unit"],
+    },
+    "C09": {
+        "level_text": 'Generated (string set, overhead, cut size, thread count 2..8, schedule) cases: the HASHRPDACBlocks constructor runs under the deterministic scheduler, every synchronisation call being a scheduling point steered by the generated schedule (random or PCT-style priorities); its image must equal the single-thread image byte for byte, every ID must extract and the extracted strings must be the input set.',
+        "level_note": SCHED_NOTE, "technique": "schedule-generating property-based testing: deterministic scheduler (pthread interposition) + rapidcheck, differential against the single-thread build", "family": "sched",
+        "engine": "rapidcheck bytes -> (case, schedule); sched/vsched.cpp owns the interleaving; each case in a forked child",
+        "stages": sched_stages("C09", 500, 700, floors={"blocks_ge2": 100, "blocks_ge4": 30, "threads_ge3": 100}, nontrivial_floor=100, thorough_mult=15),
+        "rule": "case = (S of 3..600 strings, overhead, cut, threads, schedule bytes); non-trivial = >=2 blocks and >=1 pre-emption of a "
+                "runnable thread at a synchronisation point; distinct = hash of the case bytes",
+        "assumptions": ["a deadlock under a generated schedule is C10's event; for C09 the case is inconclusive",
+                        "two single-thread builds must agree first (otherwise C08's matter, case inconclusive)"],
+    },
+    "C10": {
+        "level_text": 'Generated (workers 1..4, tasks 0..12, producer protocol, schedule) cases: WorkerPool runs under the deterministic scheduler; oracle: every task counter == 1, no task entered while running, no state in which all threads are blocked (this turns "wait_workers returns in every schedule" into a per-schedule safety check).',
+        "level_note": SCHED_NOTE, "technique": "schedule-generating property-based testing: deterministic scheduler (pthread interposition) + rapidcheck; deadlock = no enabled thread", "family": "sched",
+        "engine": "rapidcheck bytes -> (pool scenario, schedule); sched/vsched.cpp owns the interleaving; each case in a forked child",
+        "stages": sched_stages("C10", 6000, 260, floors={"threads_ge3": 2000, "preemptions_ge3": 2000, "notify_without_waiter": 500}, nontrivial_floor=2000, thorough_mult=10),
+        "rule": "case = (workers, tasks, protocol in {stop-after-add, stop-after-completion-cv, last-task-stops}, schedule bytes, strategy "
+                "random|PCT); non-trivial = >=1 task and >=1 pre-emption of a runnable thread; distinct = hash of the case bytes",
+        "assumptions": ["tasks are never added after stop (the statement covers tasks handed over before the stop)"],
+    },
+    "C11": {
+        "level_text": 'Generated multi-block HASHRPDACBlocks builds (2-8 blocks of 8-60 KB, 2/3/4/8 worker threads, generated cut and overhead) and WorkerPool runs (2-4 workers, 1-40 tasks with private busy work, three producer protocols) executed with real threads under ThreadSanitizer; every data-race report is an event.',
+        "level_note": "Trusted base: clang 14 ThreadSanitizer (happens-before detection on the schedules the OS produced in this run), harness/race_case.cpp. A race that no executed schedule exhibits stays unseen; overlap of tasks is measured (label tasks_overlapped) but never used for a verdict.",
+        "technique": "generated-input campaign with ThreadSanitizer as the oracle (dynamic race detection)", "family": "race",
+        "engine": "rapidcheck bytes -> (build | pool) scenario; TSan build of /repo; real threads",
+        "stages": (lambda tier: [{"name": "race", "binary": "race_rc", "plan": [(i % 2, (60 if i % 2 == 0 else 800) * (10 if tier == "thorough" else 1), 200) for i in range(16)],
+                                  "label_floors": {"tasks_overlapped": 50, "blocks_ge4": 10}, "nontrivial_floor": 100}]),
+        "rule": "case = parallel build (strings, cut, threads, overhead) or pool run (workers, tasks, protocol, per-task work); "
+                "non-trivial = >=2 blocks with >=2 threads | >=2 workers and >=2 tasks; distinct = hash of the case bytes",
+        "assumptions": ["lock-order inversion reports are listed but are not violations of C11's text"],
     },
     "C13": {
         **_meta('Every iterator the API returns is drained under a canary/strlen/ASan protocol check and compared with extract(k) and the reference order; scans are steered to start inside buckets.', 'property-based testing (rapidcheck), iterator protocol oracle + reference model'),
